@@ -16,21 +16,33 @@ ASSUMPTIONS = [
     "handshakes the host addresses to *other devices* on the bus (visible to the handshake detector) are not generated",
     "\"sampled when the request arrived\" = any one value the signal held between the end of the IN token and the "
     "first cycle tx.valid is seen (the statement does not fix the cycle inside that window)",
-    "signal_domain='usb' (no synchroniser between the signal and the latch)",
+    "signal_domain='usb' for 20 configurations; 6 more use signal_domain='sync'/'fast'. USBSignalInEndpoint never "
+    "references that domain's clock (its FFSynchronizer runs entirely in 'usb' and, on the unmodified tree, its output "
+    "is unused: the raw signal is latched directly), so no second clock exists in the simulation; the signal is "
+    "changed at usb cycle boundaries, i.e. it comes from a domain whose clock has the usb period, which keeps 'the "
+    "value sampled when the request arrived' well defined",
+    "for those configurations nothing is assumed about synchroniser latency: the value may be any one the signal held "
+    "from SYNC_ALLOWANCE (4) cycles before the end of the IN token up to the first tx.valid cycle (the unmodified "
+    "tree needs 0; a 2..3-stage synchroniser would need 2..3)",
 ]
 
-# (width, endianness, endpoint number) — 20 elaborations per worker at most
+SYNC_ALLOWANCE = 4
+
+# (width, endianness, endpoint number[, signal_domain]) — 26 small elaborations per worker at most
 CONFIGS = []
 for i, w in enumerate((1, 7, 8, 9, 16, 24, 31, 32, 33, 64)):
-    CONFIGS.append((w, "little", 1 + (i * 3) % 15))
-    CONFIGS.append((w, "big", 1 + (i * 5 + 2) % 15))
+    CONFIGS.append((w, "little", 1 + (i * 3) % 15, "usb"))
+    CONFIGS.append((w, "big", 1 + (i * 5 + 2) % 15, "usb"))
+CONFIGS += [(1, "little", 2, "sync"), (8, "big", 5, "sync"), (16, "little", 3, "sync"), (16, "big", 9, "fast"),
+            (33, "little", 12, "fast"), (64, "big", 1, "sync")]
 
 
 class StatusSub(Sub):
     name = "signal-in"
     budget = {"quick": 4000, "thorough": 50000}
     shrink_budget = 300
-    rule = ("USBSignalInEndpoint (10 widths 1..64 x both endiannesses) driven at its EndpointInterface by the g8 "
+    rule = ("USBSignalInEndpoint (10 widths 1..64 x both endiannesses with signal_domain='usb', 6 width/endianness "
+            "combinations with another signal_domain) driven at its EndpointInterface by the g8 "
             "endpoint-level host: IN polls with ACK / missing ACK, response delay 1/2/10 cycles, PHY tx_ready stalls, "
             "background traffic (other endpoints, same number OUT, SOF, PING, foreign device), signal changing at "
             "generated times. Oracle: every poll answered by exactly one packet of ceil(width/8) bytes that serialises "
@@ -45,8 +57,8 @@ class StatusSub(Sub):
     def harness(self, cfg):
         if cfg not in self.h:
             from luna.gateware.usb.usb2.endpoints.status import USBSignalInEndpoint
-            w, endian, ep = CONFIGS[cfg]
-            dut = USBSignalInEndpoint(width=w, endpoint_number=ep, endianness=endian)
+            w, endian, ep, sdom = CONFIGS[cfg]
+            dut = USBSignalInEndpoint(width=w, endpoint_number=ep, endianness=endian, signal_domain=sdom)
             ins, outs = interface_ports(dut.interface)
             ins["signal"] = dut.signal
             outs["src"] = dut.status_read_complete
@@ -55,7 +67,7 @@ class StatusSub(Sub):
 
     def strategy(self):
         def case(cfg):
-            w, endian, ep = CONFIGS[cfg]
+            w, endian, ep, sdom = CONFIGS[cfg]
             ev = st.one_of(G.in_mine(ep), G.in_mine(ep), G.in_mine(ep), G.background(ep, "in"))
             return st.fixed_dictionaries(dict(
                 cfg=st.just(cfg), d=G.delay, phy=G.phy, pid_wait=G.pid_wait,
@@ -65,8 +77,9 @@ class StatusSub(Sub):
 
     def run(self, case):
         cfg = case["cfg"]
-        w, endian, ep = CONFIGS[cfg]
+        w, endian, ep, sdom = CONFIGS[cfg]
         nbytes = (w + 7) // 8
+        back = 0 if sdom == "usb" else SYNC_ALLOWANCE
         sig = Segments(case["sig"])
         host = EpHost(case["ev"], d=case["d"], phy=case["phy"], pid_wait=case["pid_wait"],
                       side=lambda t, prev, h: {"signal": sig.at(t)})
@@ -114,11 +127,12 @@ class StatusSub(Sub):
                 if len({sig.at(t) for t in range(held[2], p["start"] + 1)}) > 1:
                     changed_before_retry = True
             else:
-                window = {sig.at(t) for t in range(rec["T"] + 1, p["start"] + 1)}
+                w0 = max(0, rec["T"] + 1 - back)
+                window = {sig.at(t) for t in range(w0, p["start"] + 1)}
                 if p["data"] not in [ser(v) for v in window]:
                     return fail(f"poll at {rec['T']} (d={case['d']}) sent {p['data']}; values held by the signal in "
-                                f"cycles {rec['T'] + 1}..{p['start']}: {sorted(window)} ({endian}, {nbytes} bytes)",
-                                signature="value-not-from-request-window")
+                                f"cycles {w0}..{p['start']}: {sorted(window)} ({endian}, {nbytes} bytes, "
+                                f"signal_domain={sdom!r})", signature="value-not-from-request-window")
             if len({sig.at(t) for t in range(p["start"], p["end"] + 1)}) > 1:
                 changed_in_tx = True
             if "t_ack" in rec:
@@ -138,6 +152,7 @@ class StatusSub(Sub):
             labels.add("signal-changed-before-retry")
         labels.add(f"d={case['d']}")
         labels.add(f"w={w}")
+        labels.add(f"signal_domain={'usb' if sdom == 'usb' else 'other'}")
         return Result(ok=True, nontrivial=changed_in_tx and changed_before_retry, labels=tuple(sorted(labels)))
 
 
